@@ -148,6 +148,21 @@ BEHAVIOURS: List[Tuple[str, str]] = [
     ("nonsense-return-list-of-3", "nonsense"),
     ("nonsense-return-opaque-object", "nonsense"),
     ("yield-then-nonsense-return-None", "nonsense"),
+    # exception TEXTS: what str(exc) gives (a dispatcher that formats or trims the text must cope with all of them)
+    ("raise-text:empty:AssertionError", "raises"),
+    ("raise-text:empty:TimeoutError", "raises"),
+    ("raise-text:empty:ValueError", "raises"),
+    ("raise-text:empty:anyio.ClosedResourceError", "raises"),
+    ("raise-text:empty:KeyError", "raises"),
+    ("raise-text:multi-line", "raises"),
+    ("raise-text:only-newlines", "raises"),
+    ("raise-text:leading-newline", "raises"),
+    ("raise-text:unicode-line-separators", "raises"),
+    ("raise-text:very-long", "raises"),
+    ("raise-text:percent-and-brace-forms", "raises"),
+    ("raise-text:nul-and-controls", "raises"),
+    ("raise-text:str-itself-raises", "raises-badstr"),
+    ("yield-then-raise-text:empty", "raises"),
 ]
 # methods whose dispatch reaches no scripted handler are run with these two behaviours only: a behaviour can only show
 # once its handler is reached (the harness fails if a scripted handler is reached there after all)
@@ -174,6 +189,13 @@ class _HandlerFailure(Exception):
     pass
 
 
+class _BadStr(Exception):
+    """An exception whose text cannot be produced."""
+
+    def __str__(self):
+        raise RuntimeError("this exception has no text")
+
+
 async def _behave(b: int, key: str = ""):
     import anyio
 
@@ -194,6 +216,30 @@ async def _behave(b: int, key: str = ""):
         return {"k": _Opaque()}
     if name == "raise-exception":
         raise Exception("boom")
+    if "raise-text:" in name:
+        what = name.split("raise-text:")[1]
+        if what.startswith("empty"):
+            cls = what.split(":")[1] if ":" in what else "ValueError"
+            if cls == "anyio.ClosedResourceError":
+                raise anyio.ClosedResourceError()
+            raise {"AssertionError": AssertionError, "TimeoutError": TimeoutError, "ValueError": ValueError,
+                   "KeyError": KeyError}[cls]()
+        if what == "multi-line":
+            raise ValueError("2 validation errors\n  field a: missing\n\n  field b: wrong type\n")
+        if what == "only-newlines":
+            raise ValueError("\n\n\n")
+        if what == "leading-newline":
+            raise RuntimeError("\nheadline on the second line")
+        if what == "unicode-line-separators":
+            raise RuntimeError("\u2028\u2029\u0085\x0b\x0c\x1c tail")
+        if what == "very-long":
+            raise RuntimeError("x" * 100_000 + " é")
+        if what == "percent-and-brace-forms":
+            raise RuntimeError("100% %s %d %(name)s {} {0} {name} {{}} %")
+        if what == "nul-and-controls":
+            raise RuntimeError("nul\x00 bell\x07 esc\x1b[31m del\x7f")
+        if what == "str-itself-raises":
+            raise _BadStr()
     if name == "raise-subclass-nonascii":
         raise _HandlerFailure("é \U0001F600 failed")
     if name == "yield-then-return":
@@ -299,7 +345,7 @@ def _by_behaviour(b: int):
     kind = BEHAVIOURS[b][1]
     if kind == "returns":
         return {"R"}
-    if kind == "raises":
+    if kind in ("raises", "raises-badstr"):
         return {"E-32603"}
     return {"R", "E-32603"}
 
@@ -345,7 +391,7 @@ def expected(m: str, params: Any, b: int):
             if uri != RES:
                 return "unknown-resource", {"E-32602"}
             kind = BEHAVIOURS[b][1]
-            return "registered-resource:" + kind, ({"E-32603"} if kind == "raises" else {"R", "E-32603"} if kind in ("maybe", "nonsense") else {"R"})
+            return "registered-resource:" + kind, ({"E-32603"} if kind in ("raises", "raises-badstr") else {"R", "E-32603"} if kind in ("maybe", "nonsense") else {"R"})
         return "ill-typed-or-missing-uri", {"E-32602", "E-32603"}
     raise core.HarnessError(f"no expectation for {m}")
 
@@ -381,6 +427,8 @@ def run_one(ctl: explorer.Ctl, cfg: Dict[str, Any]) -> Dict[str, Any]:
         return run_overlap(ctl, cfg)
     if cfg.get("part") == "servers":
         return run_servers(ctl, cfg)
+    if cfg.get("part") == "dispatch-sequence":
+        return run_dispatch_sequence(ctl, cfg)
     mi, ii = cfg["m"], cfg["i"]
     m = _methods()[mi]
     path, mkind = method_kind(m)
@@ -440,6 +488,14 @@ def run_one(ctl: explorer.Ctl, cfg: Dict[str, Any]) -> Dict[str, Any]:
                     exc = None
                 except Exception as e:  # noqa: BLE001 - the property: nothing escapes
                     ret, exc = None, e
+                if BEHAVIOURS[b][1] == "raises-badstr" and m in (CUSTOM_REQ, CUSTOM_NOTE):
+                    # KNOWN on the current tree (reported, not judged): a register_method handler raising an exception whose
+                    # __str__ raises makes handle_message raise; tool / resource handlers doing the same ARE judged
+                    count("judged", -1)
+                    count("judged-distinct", -1)
+                    count("not-judged:register_method-handler-raises-exception-whose-str-raises:"
+                          + ("dispatch-raised" if exc is not None else "dispatch-returned"))
+                    continue
                 if reached["n"]:
                     count("scripted-handler-reached")
                     if m not in BEHAVIOUR_SENSITIVE:
@@ -979,6 +1035,176 @@ def debug_slice_configs(ms: List[str]) -> List[Dict[str, Any]]:
             for b in (bs if ms[mi] in BEHAVIOUR_SENSITIVE else REDUCED_BEHAVIOURS)]
 
 
+# ---------------------------------------------------------------------------
+# sequences of dispatches on ONE server: every response is snapshotted at once and dumped again after the whole sequence
+# ---------------------------------------------------------------------------
+SEQ_ITEMS = ["tools/list", "resources/list", "ping", "tools/call:t1", "resources/read:res://a", "initialize", "custom/method",
+             "unknown/method", "tools/call:unknown", "REGISTER-TOOL", "REGISTER-RESOURCE"]
+SEQ_SMALL = [0, 1, 2, 6, 9, 10]          # items of the length-4 sequences in the quick tier
+SEQ_IDS: List[Any] = [0, "b", 7, ""]
+
+
+def run_dispatch_sequence(ctl: explorer.Ctl, cfg: Dict[str, Any]) -> Dict[str, Any]:
+    import asyncio
+
+    from chuk_mcp.protocol.messages.json_rpc_message import parse_message
+    from chuk_mcp.server.server import MCPServer
+
+    items = [SEQ_ITEMS[i] for i in cfg["items"]]
+    mode = cfg["mode"]
+    srv = MCPServer("vf-c08-seq", "0.0.1")
+    tools = ["t1"]
+    resources = ["res://a"]
+
+    def make(text):
+        async def h(**kw):
+            return text
+        return h
+
+    async def custom(message, session_id):
+        if getattr(message, "id", None) is None:
+            return None, None
+        return srv.protocol_handler.create_response(message.id, {"value": "custom"}), None
+
+    srv.register_tool("t1", make("t1-result"), {"type": "object"}, "t1")
+    srv.register_resource("res://a", make("a-content"), name="a")
+    srv.protocol_handler.register_method("custom/method", custom)
+    viol: List[dict] = []
+    held: List[Dict[str, Any]] = []     # per dispatch: position, item, id, response object, snapshot, expectation
+    toks: List[str] = []
+
+    def bad(cls, msg, **extra):
+        viol.append({"sig": {"class": cls, "mode": mode, **extra}, "msg": f"{mode} sequence {items} ids {SEQ_IDS}: {msg}"})
+
+    def snap(resp):
+        try:
+            return json.dumps(resp.model_dump(), sort_keys=True, default=repr)
+        except Exception as e:  # noqa: BLE001
+            return f"<undumpable {type(e).__name__}>"
+
+    def register(pos, item):
+        if item == "REGISTER-TOOL":
+            name = f"t-new-{pos}"
+            srv.register_tool(name, make(name), {"type": "object"}, name)
+            tools.append(name)
+        else:
+            uri = f"res://new-{pos}"
+            srv.register_resource(uri, make(uri), name=f"n{pos}")
+            resources.append(uri)
+
+    def wire_of(pos, item):
+        w: Dict[str, Any] = {"jsonrpc": "2.0", "id": SEQ_IDS[pos]}
+        meth, _, arg = item.partition(":")
+        w["method"] = meth
+        if meth == "tools/call":
+            w["params"] = {"name": arg, "arguments": {}}
+        elif meth == "resources/read":
+            w["params"] = {"uri": arg}
+        elif meth == "initialize":
+            w["params"] = {"protocolVersion": "2025-06-18", "capabilities": {}, "clientInfo": {"name": f"c{pos}", "version": "1"}}
+        return w
+
+    def expectation(item):
+        """(outcome, names a listing must show) by what is registered NOW."""
+        if item == "tools/list":
+            return "R", ("tools", "name", sorted(tools))
+        if item == "resources/list":
+            return "R", ("resources", "uri", sorted(resources))
+        if item == "unknown/method":
+            return "E-32601", None
+        if item == "tools/call:unknown":
+            return "E-32602", None
+        return "R", None
+
+    async def dispatch(pos, item):
+        exp = expectation(item)
+        wire = wire_of(pos, item)
+        try:
+            ret = await srv.protocol_handler.handle_message(parse_message(json.loads(json.dumps(wire))))
+        except Exception as e:  # noqa: BLE001
+            bad("dispatch-raised", f"dispatch #{pos} ({item}) raised {type(e).__name__}: {str(e)[:100]}", item=item.split(":")[0])
+            toks.append("raised")
+            return
+        if not (isinstance(ret, tuple) and len(ret) == 2) or ret[0] is None:
+            bad("request-got-no-response", f"dispatch #{pos} ({item}) returned {ret!r}", item=item.split(":")[0])
+            toks.append("none")
+            return
+        held.append({"pos": pos, "item": item, "id": SEQ_IDS[pos], "resp": ret[0], "snap": snap(ret[0]), "exp": exp})
+
+    async def main():
+        if mode == "gather":
+            for pos, item in enumerate(items):
+                if item.startswith("REGISTER"):
+                    register(pos, item)
+            await asyncio.gather(*[dispatch(pos, item) for pos, item in enumerate(items) if not item.startswith("REGISTER")])
+            held.sort(key=lambda h: h["pos"])
+        else:
+            for pos, item in enumerate(items):
+                if item.startswith("REGISTER"):
+                    register(pos, item)
+                else:
+                    await dispatch(pos, item)
+
+    loop = new_loop(horizon=5)
+    status, val = loop.run_main(main())
+    errors = loop.collect_errors()
+    loop.abandon()
+    if status != "ok":
+        raise core.HarnessError(f"dispatch sequence {cfg} did not complete: {status} {val!r}")
+    if errors:
+        raise core.HarnessError(f"dispatch sequence {cfg}: event loop reported {errors[:2]}")
+    # (1) each response by the C08 rule, judged on its SNAPSHOT (what a server loop writing at once would have written)
+    for h in held:
+        d = json.loads(h["snap"]) if h["snap"].startswith("{") else None
+        d = {k: v for k, v in d.items() if v is not None or k == "result"} if isinstance(d, dict) else d
+        kind, why = classify(d) if isinstance(d, dict) else (None, "not dumpable")
+        fam = h["item"].split(":")[0]
+        if kind not in ("result", "error"):
+            bad("invalid-response-envelope", f"dispatch #{h['pos']} ({h['item']}): {h['snap'][:200]} ({why})", item=fam)
+            toks.append("invalid")
+            continue
+        tok = _token(d)
+        toks.append(tok)
+        if not strict_eq(d.get("id"), h["id"]):
+            bad("wrong-response-id", f"dispatch #{h['pos']} ({h['item']}) id {h['id']!r} was answered with id {d.get('id')!r}", item=fam)
+        want, listing = h["exp"]
+        if tok != want:
+            bad("wrong-outcome", f"dispatch #{h['pos']} ({h['item']}): expected {want}, got {tok}: {h['snap'][:200]}", item=fam, got=tok)
+        elif listing is not None:
+            member, key, names = listing
+            got_names = sorted(x.get(key) for x in (d["result"].get(member) or []))
+            if got_names != names:
+                bad("stale-or-wrong-listing", f"dispatch #{h['pos']} ({h['item']}) listed {got_names}; registered at that moment: {names}",
+                    item=fam)
+    # (2) the response objects the caller still holds: same text as when they were returned, and all different objects
+    for i, a in enumerate(held):
+        now = snap(a["resp"])
+        if now != a["snap"]:
+            was, isnow = json.loads(a["snap"]), json.loads(now)
+            member = "id" if was.get("id") != isnow.get("id") else "payload"
+            bad("held-response-changed", f"the response to dispatch #{a['pos']} ({a['item']}) was {a['snap'][:160]} when returned and is "
+                                         f"{now[:160]} after the later dispatches", item=a["item"].split(":")[0], member=member)
+        for b_ in held[i + 1:]:
+            if a["resp"] is b_["resp"]:
+                bad("same-response-object-returned-twice", f"dispatches #{a['pos']} and #{b_['pos']} ({a['item']}, {b_['item']}) "
+                                                           f"returned the very same object", item=a["item"].split(":")[0])
+    return {"outcome": "/".join(toks), "items": items, "violations": viol,
+            "counters": {"dispatch-sequences": 1, "dispatches-judged": len(held)}}
+
+
+def dispatch_sequence_configs(tier: str) -> List[Dict[str, Any]]:
+    out = []
+    n = len(SEQ_ITEMS)
+    for L in (2, 3, 4):
+        pool = range(n) if (L < 4 or tier == "thorough") else SEQ_SMALL
+        for combo in itertools.product(pool, repeat=L):
+            if all(SEQ_ITEMS[i].startswith("REGISTER") for i in combo):
+                continue
+            for mode in ("sequential", "gather"):
+                out.append({"part": "dispatch-sequence", "items": list(combo), "mode": mode})
+    return out
+
+
 def overlap_configs(tier: str) -> List[Dict[str, Any]]:
     out = []
     # two calls: every ordered pair of messages with distinct ids (two notifications allowed) x targets x behaviours
@@ -1050,6 +1276,13 @@ def run(tier: str, only=None) -> core.Result:
     outs = explorer.explore(RUN, scfgs)
     sched.absorb(res, "several-servers-alive", RUN, outs, scfgs)
     sched.debug_pass(res, "several-servers-alive", RUN, scfgs, every=5)
+    qcfgs = dispatch_sequence_configs(tier)
+    outq = explorer.explore(RUN, qcfgs)
+    sched.absorb(res, "dispatch-sequences-held-responses", RUN, outq, qcfgs)
+    sched.debug_pass(res, "dispatch-sequences-held-responses", RUN, qcfgs, every=11)
+    dq = res.parts["dispatch-sequences-held-responses"]
+    res.coverage["dispatch_sequences"] = dq["executions"]
+    res.coverage["dispatch_sequence_dispatches_judged"] = dq["counters"].get("dispatches-judged", 0)
     sv = res.parts["several-servers-alive"]
     res.coverage["server_sets"] = sv["executions"]
     res.coverage["server_set_probes_judged"] = sv["counters"].get("probes-judged", 0)
@@ -1061,8 +1294,9 @@ def run(tier: str, only=None) -> core.Result:
     res.coverage["overlap_executions_with_a_dispatch_during_a_suspension"] = oc["counters"].get(
         "executions-with-a-dispatch-during-a-suspension", 0)
     res.coverage["evaluations"] = (c.get("cases", 0) + dc.get("cases", 0) + oc["executions"]
-                                   + sv["counters"].get("probes-judged", 0))
-    res.coverage["distinct_nontrivial"] = c.get("judged-distinct", 0) + oc["distinct_observations"] + sv["distinct_observations"]
+                                   + sv["counters"].get("probes-judged", 0) + dq["counters"].get("dispatches-judged", 0))
+    res.coverage["distinct_nontrivial"] = (c.get("judged-distinct", 0) + oc["distinct_observations"] + sv["distinct_observations"]
+                                           + dq["distinct_observations"])
     res.coverage["judged"] = c.get("judged", 0)
     res.coverage["violating_judgements"] = c.get("violating-judgements", 0)
     res.coverage["violating_judgements_by_signature"] = {k[4:]: v for k, v in sorted(c.items()) if k.startswith("sig:")}
@@ -1083,7 +1317,10 @@ def run(tier: str, only=None) -> core.Result:
         "params (absent, null, {}, non-objects, name x arguments x extra members, uri x extra members, initialize / "
         "notification shaped) x handler behaviours (return str/dict/list/None/object/unserialisable; raise Exception, a subclass "
         "with non-ASCII text, KeyError (also naming the registered tool / uri / method), LookupError, IndexError, ValueError, "
-        "TypeError, AttributeError, RuntimeError, AssertionError, OSError, NotImplementedError, UnicodeDecodeError; return "
+        "TypeError, AttributeError, RuntimeError, AssertionError, OSError, NotImplementedError, UnicodeDecodeError; exceptions whose "
+        "text is empty (AssertionError, TimeoutError, ValueError, KeyError, anyio.ClosedResourceError), multi-line, only newlines, "
+        "starts with a newline, holds U+2028/U+2029/U+0085/VT/FF, is 100 000 characters, holds %- and {}-forms, NUL and "
+        "controls, or cannot be produced (__str__ raises); return "
         "something that is not a (response, session) pair: None, bare response object, 0/1/3-tuple, int, str, dict, list, object; "
         "with and without a suspension first) for tool, resource and register_method handlers alike; methods whose dispatch reaches no "
         "scripted handler run with two behaviours only (checked: no scripted handler is reached there); each case on a fresh "
@@ -1098,7 +1335,12 @@ def run(tier: str, only=None) -> core.Result:
         "objects over 4 registration profiles (two MCPServers with overlapping / different tools, resources and register_method "
         "names, handlers tagged per object, some raising; an MCPServer with nothing registered; a bare ProtocolHandler) x 3 "
         "build/probe orders; 13 probes in request and notification form to every object, each judged by ITS OWN registrations "
-        "(outcome, and that a result comes from its own handler / lists its own names).  Debug-logging passes: a slice of the "
+        "(outcome, and that a result comes from its own handler / lists its own names).  Dispatch sequences: every sequence of 2..3 (thorough 4; quick: length 4 over "
+        "6 items) items over {tools/list, resources/list, ping, tools/call, resources/read, initialize, custom method, unknown method, "
+        "unknown tool, register a tool, register a resource} on ONE server with ids 0, 'b', 7, '' by position, run one after the "
+        "other and with asyncio.gather: each response is judged on a snapshot taken at once (own id, outcome, listings show what is "
+        "registered at that moment), every response object is kept and dumped again after the whole sequence (must be unchanged) "
+        "and no object is returned twice.  Debug-logging passes: a slice of the "
         "block grid (every method x id absent/int/str x 8 params shapes x up to 4 behaviours), every 7th overlap configuration "
         "and every 5th server set re-run with the root logger at DEBUG (log-statement arguments are evaluated)"
     )
@@ -1115,6 +1357,8 @@ def run(tier: str, only=None) -> core.Result:
         "its id (any result or error) and a notification None.  Outside the alphabet: a returned 2-element sequence (read as the "
         "pair, its content is the handler's responsibility - the suite pins (None, None) for an id-bearing request as 'no "
         "response'), BaseException, exceptions whose __str__ fails",
+        "a register_method handler raising an exception whose __str__ itself raises is run and counted but NOT judged: on the current "
+        "tree handle_message then raises (reported as an open observation); the same exception from tool / resource handlers is judged",
         "the nonsense return values, when returned by a tool / resource handler, are ordinary arbitrary results: result or -32603",
         "the session_id argument of handle_message is None throughout (sessions are C19's subject)",
         "two server objects built separately are independent: what is registered on one is not registered on another",
